@@ -35,7 +35,17 @@ type AppVal struct {
 	Ret  uint64   `json:"ret"`
 }
 
+// SchedEntry: one context switch of the explored schedule (for the native replay controller).
+type SchedEntry struct {
+	Kind   string `json:"kind"` // preempt (at a vfPoint), block (goroutine blocked), exit (goroutine ended)
+	From   int    `json:"from"`
+	Points int    `json:"points"` // number of vfPoints goroutine `from` has passed when it is switched out
+	To     int    `json:"to"`
+}
+
 type Violation struct {
+	Sched []SchedEntry `json:"sched,omitempty"`
+	BaseG int          `json:"base_g,omitempty"`
 	Harness   string     `json:"harness"`
 	Label     string     `json:"label"`
 	Msg       string     `json:"msg,omitempty"`
@@ -153,6 +163,8 @@ type Machine struct {
 	logs      []string
 	mapOrder  int
 	mapFlip   int
+	sched     []SchedEntry
+	baseG     int
 }
 
 type pathEnd struct {
@@ -402,7 +414,7 @@ func (m *Machine) modelViolation(label string, extra []T, pos, msg string) smt.R
 	if r != smt.Sat {
 		return r
 	}
-	v := Violation{Harness: m.name, Label: label, Pos: pos, Msg: msg, Decisions: append([]Decision(nil), m.Res.Trace...),
+	v := Violation{Sched: append([]SchedEntry(nil), m.sched...), BaseG: m.baseG, Harness: m.name, Label: label, Pos: pos, Msg: msg, Decisions: append([]Decision(nil), m.Res.Trace...),
 		Choices: append([]int(nil), m.choices...), Trace: append([]string(nil), m.logs...)}
 	i := 0
 	for _, in := range m.inputs {
@@ -502,6 +514,9 @@ type Program struct {
 	InitPkgs []*ssa.Package
 	errorStringPtr types.Type
 	rtypePtr       types.Type
+	Instrumented   bool
+	Points         map[int]string
+	repoPkgs       map[*ssa.Package]bool
 }
 
 func (p *Program) posOf(pos token.Pos) string {
